@@ -310,7 +310,7 @@ Section Render.
   Definition ends_operand (t : tok) : bool :=
     match t with TA _ | TClose _ => true | TRg _ br => negb br | _ => false end.
   Definition begins_operand (t : tok) : bool :=
-    match t with TA _ | TOpen _ | TS _ true | TAlias _ | TNamed _ => true | TRg bl _ => negb bl | _ => false end.
+    match t with TA _ | TOpen _ | TS _ true | TAlias _ | TNamed _ | TFunc | TStar => true | TRg bl _ => negb bl | _ => false end.
   Definition space_between (a b : tok) : bool :=
     match a, b with
     | TNL _, _ | _, TNL _ | TAnn, _ => false
